@@ -23,7 +23,7 @@ from . import _c35_nft as NFT
 ID = "C35"
 LEAN_MODULES = ["NiftyVerif.Props.C35", "NiftyVerif.Model.LinOpsProto", "NiftyVerif.Model.Response",
                 "NiftyVerif.Model.ResponseLos", "NiftyVerif.Model.Nft", "NiftyVerif.Model.NftProto",
-                "NiftyVerif.Model.ResponseProto", "NiftyVerif.Model.Coo", "NiftyVerif.Model.CQ", "NiftyVerif.Model.LinOps",
+                "NiftyVerif.Model.ResponseProto", "NiftyVerif.Model.ResponseSampling", "NiftyVerif.Model.Coo", "NiftyVerif.Model.CQ", "NiftyVerif.Model.LinOps",
                 "NiftyVerif.Core.Proto"]
 DRIVER = "Driver/C35.lean"
 TRANSLATORS = []
@@ -34,6 +34,7 @@ OBLIGATIONS = ["NiftyVerif.C35." + t for t in (
     "los_traverse_refines", "los_traverse_refines_zero", "los_traverse_weights_sum", "los_traverse_weights_nonneg",
     "los_traverse_steps", "los_traverse_first_pixel", "los_clip_inside", "los_clip_eq_clipBox", "los_traverse_refines_losRow",
     "los_traverse_in_grid", "los_generic_flag_sound", "los_init_refines",
+    "sampling_los_exact_affine", "sampling_interp_exact_multiaffine",
     "nft_adjoint", "nft_mono_apply_spec", "nft_on_grid_is_dft", "nft_on_grid_is_dft_nd", "nft_shift", "nft_entry_is_phase")]
 RULE = ("one case = (operator class, generated grid / sampling points / line segments / positions / mask / accuracy); "
         "non-trivial = the operator has at least one non-zero weight; distinct by canonical JSON of the case; "
@@ -720,7 +721,7 @@ def _corpus35(pred):
     return out
 
 
-def _run_los_and_lattice(ctx, nlos, nlat):
+def _run_los_and_lattice(ctx, nlos, nlat, nsamp=0):
     """one driver call for both streams (every `lean --run` start costs seconds); corpus cases first"""
     lc = _los_cases(ctx, nlos)
     nc = [NFT.gen_lattice(ctx.rng) for _ in range(nlat)]
@@ -728,9 +729,11 @@ def _run_los_and_lattice(ctx, nlos, nlat):
         lc = [dict(c, eps=LOS_EPS) for c in _corpus35(lambda c: c.get("cls") == "LOSResponse")] + lc
     if nlat:
         nc = _corpus35(lambda c: c.get("lattice") is True) + nc
-    outs = ctx.model(DRIVER, lc + [NFT.model_line(c) for c in nc])
+    sc = [_gen_sampling(ctx.rng) for _ in range(nsamp)]
+    outs = ctx.model(DRIVER, lc + [NFT.model_line(c) for c in nc] + [_sampling_line(c) for c in sc])
     _los_process(ctx, lc, outs[:len(lc)])
-    _lattice_process(ctx, nc, outs[len(lc):])
+    _lattice_process(ctx, nc, outs[len(lc):len(lc) + len(nc)])
+    _sampling_process(ctx, sc, outs[len(lc) + len(nc):])
 
 
 # ------------------------------------------------------------------------------------------------ nifty.re sampling LOS
@@ -743,7 +746,51 @@ def _gen_sampling(rng):
     st = [[round(rng.uniform(0.05, 0.95) * e, 4) for e in ext] for _ in range(nlos)]
     en = [[round(rng.uniform(0.05, 0.95) * e, 4) for e in ext] for _ in range(nlos)]
     return dict(cls="SamplingCartesianGridLOS", shape=shape, dist=dist, starts=st, ends=en,
-                n=rng.choice([1, 7, 50]), coef=[rng.randint(-3, 3) for _ in range(nd + 1)])
+                n=rng.choice([1, 7, 50]), coef=[rng.randint(-3, 3) for _ in range(nd + 1)],
+                field=[rng.randint(-4, 4) for _ in range(int(np.prod(shape)))])
+
+
+def _sampling_line(case):
+    """the same float64 numbers the code sees, as exact rationals (class F inputs), for Model/ResponseSampling.lean"""
+    return dict(cls="SamplingLOS", shape=case["shape"], dist=[U.fr(d) for d in case["dist"]],
+                starts=[[U.fr(v) for v in p] for p in case["starts"]], ends=[[U.fr(v) for v in p] for p in case["ends"]],
+                n=case["n"], x=[str(v) for v in case["field"]])
+
+
+def _sampling_process(ctx, cases, outs):
+    """code (jax, float64) vs the exact transcription of `_los` on an arbitrary integer field (class T, 1e-9)"""
+    for case, m in zip(cases, outs):
+        ctx.stat("cls:" + case["cls"])
+        ctx.case(case, True)
+        r = sampling_oracle(case)
+        if r is not None:
+            ctx.counterexample(case, r[0], r[1])
+        if not isinstance(m, dict) or "vals" not in m:
+            ctx.disagree(case, {"built": True}, m, "sampling LOS model rejected a generated case")
+            continue
+        try:
+            import jax
+            jax.config.update("jax_enable_x64", True)
+            import jax.numpy as jnp
+            from nifty.re.extra.sampling_los import SamplingCartesianGridLOS
+            st, en = np.array(case["starts"]), np.array(case["ends"])
+            op = SamplingCartesianGridLOS(jnp.array(st), jnp.array(en), shape=tuple(case["shape"]),
+                                          distances=tuple(case["dist"]), n_sampling_points=case["n"])
+            got = np.asarray(op(jnp.array(np.array(case["field"], dtype=np.float64).reshape(case["shape"]))))
+        except Exception as e:
+            ctx.disagree(case, {"error": type(e).__name__}, m, "SamplingCartesianGridLOS raised on a generated case")
+            continue
+        norm = np.linalg.norm(en - st, axis=1)
+        for i, v in enumerate(m["vals"]):
+            if v is None:
+                ok = bool(np.isnan(got[i]))
+            else:
+                want = float(Fraction(v)) * norm[i]
+                ok = abs(got[i] - want) <= 1e-9 * (abs(want) + 4 * norm[i])
+            if not ok:
+                ctx.disagree(case, {"line": i, "code": float(got[i])}, {"model": v, "norm": float(norm[i])},
+                             "SamplingCartesianGridLOS vs the transcription of _los on an integer field (class T, 1e-9)")
+                break
 
 
 def sampling_oracle(case):
@@ -807,19 +854,12 @@ def shrink(case):
 
 def run(ctx):
     E.run_table(ctx, CLASSES, DRIVER, ctx.n(24, 400), ctx.n(4, 30), "C35")
-    _run_los_and_lattice(ctx, ctx.n(30, 800), ctx.n(12, 600))
+    _run_los_and_lattice(ctx, ctx.n(30, 800), ctx.n(12, 600), ctx.n(4, 100))
     for _ in range(ctx.n(120, 1500)):
         c = _gen_nft(ctx.rng)
         ctx.stat("cls:" + c["cls"])
         ctx.case(c, True)
         r = nft_oracle(c)
-        if r is not None:
-            ctx.counterexample(c, r[0], r[1])
-    for _ in range(ctx.n(4, 100)):
-        c = _gen_sampling(ctx.rng)
-        ctx.stat("cls:" + c["cls"])
-        ctx.case(c, True)
-        r = sampling_oracle(c)
         if r is not None:
             ctx.counterexample(c, r[0], r[1])
 
